@@ -248,6 +248,16 @@ def chan_reach(*a):
     return len(LAST) > 1 and LAST[8] is None and LAST[4] == -1 and len(LAST[10]) == 2 and len(LAST[11]) == 1 and len(LAST[3]) == 1
 
 
+def reap(n, d0, d1, d2, g0, g1, g2):
+    """The parent terminates and counts every child's tests whatever the order in which the worker threads die (the real
+    resume_tests under the C06 schedule model: symbolic durations / lags, several deaths inside one poll included)."""
+    global LAST
+    from harness import c06
+    ok = c06.sched(n, 0, False, d0, d1, d2, g0, g1, g2, 0, 0, 0)
+    LAST = ('reap',) + tuple(c06.LAST[:6])
+    return ok
+
+
 _P = [('ran', 'int'), ('nf', 'int'), ('f0', 'int'), ('f1', 'int'), ('ne', 'int'), ('e0', 'int'), ('e1', 'int'), ('nn', 'int'), ('k0', 'int'),
       ('k1', 'int'), ('cut', 'int'), ('fault', 'int'), ('verbose', 'int'), ('nout', 'int')]
 _C = ', '.join(n for n, _ in _P)
@@ -281,7 +291,7 @@ def _v(**kw):
 
 SPEC = {
     'property': 'C07',
-    'encoded': ['zope.testrunner.runner.spawn_layer_in_subprocess (complete: argv, reader thread, stdout relay loop, header and name parser, '
+    'encoded': ['zope.testrunner.runner.resume_tests (reap(): reaping of worker threads, sum of num_ran)', 'zope.testrunner.runner.spawn_layer_in_subprocess (complete: argv, reader thread, stdout relay loop, header and name parser, '
                 'error paths, finally)', 'zope.testrunner.process.SubProcess.report (child side, produces the honest bytes)',
                 'runner.AbstractSubprocessResult'],
     'files': ['src/zope/testrunner/runner.py', 'src/zope/testrunner/process.py'],
@@ -314,5 +324,12 @@ SPEC = {
                     'thorough': ['verbose == %d and nn == %d and fault == %d' % (vb, n, f) for vb in (1, 2) for n in range(3) for f in range(len(FAULTS))]},
          'timeout': {'quick': 300, 'thorough': 1500},
          'fidelity': [_v(verbose=2, fault=4, nn=2, k0=3, k1=1, nf=1, f0=0, f1=1, ne=1)]},
+        {'name': 'reap', 'fn': 'reap', 'params': [('n', 'int')] + [('d%d' % i, 'int') for i in range(3)] + [('g%d' % i, 'int') for i in range(3)],
+         'call': 'n, d0, d1, d2, g0, g1, g2',
+         'bounds': {'quick': '2 <= n <= 3 and ' + ' and '.join('1 <= d%d <= 2 and 0 <= g%d <= 1' % (i, i) for i in range(3)),
+                    'thorough': '1 <= n <= 4 and ' + ' and '.join('1 <= d%d <= 3 and 0 <= g%d <= 2' % (i, i) for i in range(3))},
+         'slices': {'quick': ['n == %d' % n for n in (2, 3)], 'thorough': ['n == %d and d0 == %d' % (n, d) for n in range(1, 5) for d in (1, 2, 3)]},
+         'timeout': {'quick': 300, 'thorough': 1500},
+         'fidelity': [dict(n=3, d0=1, d1=1, d2=2, g0=0, g1=0, g2=1)]},
     ],
 }
